@@ -87,6 +87,11 @@ let () =
            let hist = nlist n (fun () -> let sv = nf () in let fv = nf () in (sv, fv)) in
            let tr = tf_trace fops lagged sub None 0.0 hist in
            Printf.printf "%s\n" (String.concat " " (List.map hex tr))
+         | "JAC" ->
+           (* JAC scaled n hide apply fb fba fj -> colvar::f *)
+           let sc = nb () in let n = nz () in let hd = nb () in let ap = nb () in
+           let fb = nf () in let fba = nf () in let fj = nf () in
+           Printf.printf "%s\n" (hex (jac_force fops sc n hd ap fb fba fj))
          | "TFR" ->
            (* TFR late lagged sub n {s fb fba} -> reported total forces (applied force split fb / fb_actual) *)
            let late = nb () in let lagged = nb () in let sub = nb () in let n = ni () in
